@@ -100,6 +100,7 @@ VARIANTS = [
     ("noper", ("-fcompound-names", "-no-gen-PER"), ("-DASN_DISABLE_PER_SUPPORT",), ("thorough",), None),
 ]
 
+COV_VARIANTS = ("native", "wide-indirect")     # same preprocessor flags: their gcov counters can be merged branch by branch
 SKEL_EXCLUDE_C19 = {"converter-example.c"}
 RO_CFLAGS = ["-std=gnu99", "-w", "-O1", "-g", "-fPIC", "-finstrument-functions", "-DASN_PDU_COLLECTION"]
 THR_CFLAGS = ["-std=gnu99", "-w", "-O1", "-g", "-fsanitize=thread", "-DASN_PDU_COLLECTION"]
@@ -120,8 +121,10 @@ CANARY_SYMS = ("c19_canary_data", "c19_canary_bss", "c19_canary_same")
 
 def modules_for(rng, tier):
     """-> list of (module dict, [type names], {type: [DER hex seeds]}); a module dict may carry "peers" (see c19_zoo.Z0_PEERS)"""
-    mods = [({"name": "C19K", "text": K0}, K0_TYPES, K0_SEEDS), ({"name": "C19X", "text": K1}, K1_TYPES, K1_SEEDS),
-            ({"name": "C19Z", "text": ZOO.Z0, "peers": ZOO.Z0_PEERS}, ZOO.Z0_TYPES, ZOO.Z0_SEEDS)]
+    mods = [({"name": "C19K", "text": K0}, K0_TYPES, dict(K0_SEEDS, **ZOO.K0_MORE_SEEDS)), ({"name": "C19X", "text": K1}, K1_TYPES, K1_SEEDS),
+            ({"name": "C19Z", "text": ZOO.Z0, "peers": ZOO.Z0_PEERS}, ZOO.Z0_TYPES, ZOO.Z0_SEEDS),
+            # no ASN.1 text: built-in descriptors of the skeletons named so that they can be given hand-made values
+            ({"name": "builtin", "text": None}, sorted(ZOO.BUILTIN_SEEDS), ZOO.BUILTIN_SEEDS)]
     g = modgen.Gen(rng).module("C19G", 6 if tier == "quick" else 10)
     mods.append((g, [n for n, _ in g["defs"]], {}))
     return mods
@@ -157,8 +160,9 @@ def build_variant(asn1c, skel, root, tag, opts, xcflags, mods, skip_rx=None, cov
     gen = os.path.join(d, "gen")
     os.makedirs(gen, exist_ok=True)
     for m, _, _ in mods:
-        open(os.path.join(gen, m["name"] + ".asn1"), "w").write(m["text"])
-    cmd = [asn1c, "-S", skel, "-R"] + list(opts) + [m["name"] + ".asn1" for m, _, _ in mods]
+        if m["text"] is not None:
+            open(os.path.join(gen, m["name"] + ".asn1"), "w").write(m["text"])
+    cmd = [asn1c, "-S", skel, "-R"] + list(opts) + [m["name"] + ".asn1" for m, _, _ in mods if m["text"] is not None]
     p = subprocess.run(cmd, cwd=gen, stdout=subprocess.PIPE, stderr=subprocess.STDOUT, text=True, errors="replace", timeout=120)
     if p.returncode != 0:
         raise BuildError("asn1c %s failed:\n%s" % (" ".join(opts), p.stdout[-2000:]))
@@ -270,7 +274,8 @@ def run_ro(v, seed, iters, timeout=600):
     """-> dict(stores=[...], diffs=[...], crashes=[...], funcs_seen, funcs_all, summary, selftest_ok, rc, raw_tail)"""
     st = Symtab(v["lib"])
     rc, out = sh([v["ro_exe"], "ro", str(seed), str(iters)], timeout=timeout)
-    res = {"stores": [], "diffs": [], "crashes": [], "summary": "", "rc": rc, "raw_tail": out[-1500:], "segments": []}
+    res = {"stores": [], "diffs": [], "crashes": [], "summary": "", "rc": rc, "raw_tail": out[-1500:], "segments": [],
+           "parts": None, "parts_outside": [], "values": {}}
     seen = set()
     canary_store, canary_diff = set(), set()
     for line in out.split("\n"):
@@ -303,6 +308,13 @@ def run_ro(v, seed, iters, timeout=600):
             seen.add(int(line.split()[1], 16))
         elif line.startswith("SEG "):
             res["segments"].append(line[4:])
+        elif line.startswith("PARTS "):
+            res["parts"] = {k: int(x) for k, x in (kv.split("=") for kv in line.split()[1:])}
+        elif line.startswith("PARTX "):
+            res["parts_outside"].append(line[6:])
+        elif line.startswith("VAL "):
+            f = line.split(" ", 3)
+            res["values"][f[3]] = (int(f[1]), int(f[2]))
         elif line.startswith("RO "):
             res["summary"] = line
     allf = st.functions()
@@ -366,7 +378,8 @@ def run_cov(v, seed, iters, timeout=900):
             os.unlink(os.path.join(d, f))
     rc, out = sh([v["cov_exe"], "cov", str(seed), str(iters)], cwd=v["dir"], timeout=timeout)
     res = {"rc": rc, "summary": next((l for l in out.split("\n") if l.startswith("RO ")), ""), "per_file": {}, "functions_never_executed": [],
-           "untaken_by_function": {}, "untaken_lines": {}}
+           "untaken_by_function": {}, "untaken_lines": {}, "raw": {"fn": {}, "ln": {}, "br": {}}}
+    raw = res["raw"]
     tot = {"functions": 0, "functions_executed": 0, "lines": 0, "lines_executed": 0, "branches": 0, "branches_taken": 0}
     gcdas = sorted(f for f in os.listdir(d) if f.startswith("s_") and f.endswith(".gcda"))
     if not gcdas:
@@ -390,6 +403,7 @@ def run_cov(v, seed, iters, timeout=900):
             pf = res["per_file"].setdefault(base, {"functions": 0, "functions_executed": 0, "lines": 0, "lines_executed": 0, "branches": 0, "branches_taken": 0})
             for f in fl.get("functions", []):
                 pf["functions"] += 1
+                raw["fn"][(base, f["name"])] = raw["fn"].get((base, f["name"]), 0) + f.get("execution_count", 0)
                 if f.get("execution_count", 0) > 0:
                     pf["functions_executed"] += 1
                 else:
@@ -397,9 +411,11 @@ def run_cov(v, seed, iters, timeout=900):
             for ln in fl.get("lines", []):
                 pf["lines"] += 1
                 pf["lines_executed"] += 1 if ln.get("count", 0) > 0 else 0
-                for b in ln.get("branches", []):
+                raw["ln"][(base, ln["line_number"])] = raw["ln"].get((base, ln["line_number"]), 0) + ln.get("count", 0)
+                for bi, b in enumerate(ln.get("branches", [])):
                     if b.get("throw"):
                         continue
+                    raw["br"][(base, ln.get("function_name", "?"), ln["line_number"], bi)] = raw["br"].get((base, ln.get("function_name", "?"), ln["line_number"], bi), 0) + b.get("count", 0)
                     pf["branches"] += 1
                     if b.get("count", 0) > 0:
                         pf["branches_taken"] += 1
@@ -462,3 +478,42 @@ def shape_report(per_variant):
     unknown = sorted("%s=%s" % (k, s) for k, sides in seen.items() for s in sides if s not in known.get(k, {}))
     return {"keys": len(ZOO.SHAPES), "sides_expected": nexp, "sides_seen": nseen, "missing": missing, "unreachable_by_generated_code": unreachable,
             "unknown": unknown, "types_per_side": table}
+
+
+def merge_cov(covs):
+    """covs: {variant tag: run_cov(...)} of builds with the same preprocessor flags -> one report: a function / line / branch counts as
+    exercised when any variant exercised it.  The raw counters are dropped; what stays is small enough for the evidence file."""
+    fn, ln, br = {}, {}, {}
+    for cv in covs.values():
+        for k, n in cv["raw"]["fn"].items():
+            fn[k] = fn.get(k, 0) + n
+        for k, n in cv["raw"]["ln"].items():
+            ln[k] = ln.get(k, 0) + n
+        for k, n in cv["raw"]["br"].items():
+            br[k] = br.get(k, 0) + n
+    per_file, by_fn = {}, {}
+    for (f, name), n in fn.items():
+        pf = per_file.setdefault(f, {"functions": 0, "functions_executed": 0, "lines": 0, "lines_executed": 0, "branches": 0, "branches_taken": 0})
+        pf["functions"] += 1
+        pf["functions_executed"] += 1 if n else 0
+    for (f, l), n in ln.items():
+        pf = per_file.setdefault(f, {"functions": 0, "functions_executed": 0, "lines": 0, "lines_executed": 0, "branches": 0, "branches_taken": 0})
+        pf["lines"] += 1
+        pf["lines_executed"] += 1 if n else 0
+    for (f, name, l, bi), n in br.items():
+        pf = per_file[f]
+        pf["branches"] += 1
+        if n:
+            pf["branches_taken"] += 1
+        else:
+            by_fn["%s:%s" % (f, name)] = by_fn.get("%s:%s" % (f, name), 0) + 1
+    tot = {k: sum(pf[k] for pf in per_file.values()) for k in ("functions", "functions_executed", "lines", "lines_executed", "branches", "branches_taken")}
+    out = {"build": "gcc -O0 --coverage, skeletons/*.c only, the read-only battery (`c19drv cov`, image left writable), variants merged: " + ", ".join(sorted(covs)),
+           "runs": {t: cv["summary"] for t, cv in covs.items()}, "errors": {t: cv["error"] for t, cv in covs.items() if cv.get("error")}}
+    out.update(tot)
+    out["functions_never_executed"] = sorted("%s (%s)" % (name, f) for (f, name), n in fn.items() if not n)
+    out["lines_never_executed"] = tot["lines"] - tot["lines_executed"]
+    out["branches_never_taken"] = tot["branches"] - tot["branches_taken"]
+    out["branches_never_taken_by_function(top 60)"] = dict(sorted(by_fn.items(), key=lambda x: -x[1])[:60])
+    out["per_file"] = {f: per_file[f] for f in sorted(per_file)}
+    return out
